@@ -9,6 +9,7 @@ import (
 	"flag"
 	"fmt"
 	"os"
+	"sort"
 	"strings"
 
 	"github.com/martian-lang/martian/martian/syntax"
@@ -166,13 +167,26 @@ func findNode(id string, cg syntax.CallGraphNode) (string, syntax.CallGraphNode)
 	return "", nil
 }
 
+// Returns the names of the given inputs in sorted order, so that the
+// traces are printed in a repeatable order.
+func sortedInputs(inputs syntax.ResolvedBindingMap) []string {
+	keys := make([]string, 0, len(inputs))
+	for k := range inputs {
+		keys = append(keys, k)
+	}
+	sort.Strings(keys)
+	return keys
+}
+
 func traceInput(stage string, cg syntax.CallGraphNode, lookup *syntax.TypeLookup) bool {
 	param, cg := findNode(stage, cg)
 	if cg == nil {
 		return false
 	}
 	if param == "" {
-		for k, v := range cg.ResolvedInputs() {
+		inputs := cg.ResolvedInputs()
+		for _, k := range sortedInputs(inputs) {
+			v := inputs[k]
 			t := v.Type.TypeId()
 			fmt.Print(cg.GetFqid(), ".", k, " (", t.String(), ") = ",
 				syntax.FormatExp(v.Exp, "\t"))
@@ -238,8 +252,9 @@ func traceOutputResolved(tail string, source, cg syntax.CallGraphNode) {
 	}
 	switch cg := cg.(type) {
 	case *syntax.CallGraphStage:
-		for k, v := range cg.ResolvedInputs() {
-			refs := v.Exp.FindRefs()
+		inputs := cg.ResolvedInputs()
+		for _, k := range sortedInputs(inputs) {
+			refs := inputs[k].Exp.FindRefs()
 			if len(refs) > 0 {
 				var mentioned map[string]struct{}
 				for _, ref := range refs {
